@@ -524,9 +524,16 @@ def run_case(files, model, load_order, subset, scale, workdir, keep=None):
             if e is not None:
                 R[MAPS_SET] = (False, f"calculate_exchange_maps({scale}) raised {type(e).__name__}: {e}", True)
                 return R
-        _, e = _call(manager.add_end_molecule, ends[subset[-1]])
+        # the last species gets its end molecule either through add_end_molecule or -- every other case -- the other documented way,
+        # assignment to molecule_correspondence[name].end (the correspondence table has been read above: nothing may be remembered from it)
+        if (len(model["mols"]) + len(subset) + int(round(scale * 10))) % 2 == 0:
+            _, e = _call(manager.add_end_molecule, ends[subset[-1]])
+        else:
+            def _assign():
+                manager.molecule_correspondence[subset[-1]].end = ends[subset[-1]]
+            _, e = _call(_assign)
         if e is not None:
-            R[ADD_END] = (False, f"add_end_molecule({subset[-1]}) raised {type(e).__name__}: {e}", True)
+            R[ADD_END] = (False, f"attaching the end molecule of {subset[-1]} raised {type(e).__name__}: {e}", True)
             return R
         R[ADD_END] = (True, "", True)
         cc, e = _call(lambda: dict(manager.complete_correspondence))
